@@ -1074,6 +1074,38 @@ theorem nEq_removeEmpties (e : Env) (h rtl : Bool) (o : Nat) (cs : List RNode) :
   rw [m_mkAlt, m_alt]
   exact aEq_removeEmptiesGo h e rtl cs false st
 
+theorem reduceAltFrom_sound (e : Env) (red : Bool → RNode → RNode) (on pa rtl : Bool)
+    (hred : rtl = false → RedSound e false red) (n1 : RNode) :
+    NEq pa e rtl (reduceAltFrom red false on pa rtl n1) n1 := by
+  unfold reduceAltFrom
+  split
+  · rename_i o1 cs1
+    have h2 : NEq pa e rtl (if (on && !rtl) = true then factorText red pa o1 cs1 else .alt o1 cs1) (.alt o1 cs1) := by
+      split
+      · rename_i hc
+        simp only [Bool.and_eq_true, Bool.not_eq_true'] at hc
+        obtain ⟨_, rfl⟩ := hc
+        exact m_factorText e red (hred rfl) pa o1 cs1
+      · exact NEq.refl _ _ _ _
+    split
+    · rename_i o2 cs2 heq2
+      rw [heq2] at h2
+      refine NEq.trans ?_ h2
+      have h3 : NEq pa e rtl (if (on && !rtl) = true then factorSet red pa o2 cs2 else .alt o2 cs2) (.alt o2 cs2) := by
+        split
+        · rename_i hc
+          simp only [Bool.and_eq_true, Bool.not_eq_true'] at hc
+          obtain ⟨_, rfl⟩ := hc
+          exact m_factorSet e red (hred rfl) pa o2 cs2
+        · exact NEq.refl _ _ _ _
+      split
+      · rename_i o3 cs3 heq3
+        rw [heq3] at h3
+        exact NEq.trans (nEq_removeEmpties e pa rtl o3 cs3) h3
+      · exact h3
+    · exact h2
+  · exact NEq.refl _ _ _ _
+
 /-- **`reduceAlternation` (proved variant) keeps the successes** — the first success when the parent is Atomic -/
 theorem reduceAlt_sound (e : Env) (ht : TextOK e) (red : Bool → RNode → RNode) (on pa rtl : Bool)
     (hred : rtl = false → RedSound e false red) (o : Nat) (cs : List RNode) :
@@ -1084,36 +1116,7 @@ theorem reduceAlt_sound (e : Env) (ht : TextOK e) (red : Bool → RNode → RNod
   | [c] => intro st; simp [toPat, altOf, toPats]; exact LRel.refl _ _
   | a :: b :: rest =>
     simp only
-    have h1 := nEq_mkAlt_mergeLetters e ht pa rtl o (a :: b :: rest)
-    split
-    · rename_i o1 cs1 heq
-      rw [heq] at h1
-      refine NEq.trans ?_ h1
-      have h2 : NEq pa e rtl (if (on && !rtl) = true then factorText red pa o1 cs1 else .alt o1 cs1) (.alt o1 cs1) := by
-        split
-        · rename_i hc
-          simp only [Bool.and_eq_true, Bool.not_eq_true'] at hc
-          obtain ⟨_, rfl⟩ := hc
-          exact m_factorText e red (hred rfl) pa o1 cs1
-        · exact NEq.refl _ _ _ _
-      split
-      · rename_i o2 cs2 heq2
-        rw [heq2] at h2
-        refine NEq.trans ?_ h2
-        have h3 : NEq pa e rtl (if (on && !rtl) = true then factorSet red pa o2 cs2 else .alt o2 cs2) (.alt o2 cs2) := by
-          split
-          · rename_i hc
-            simp only [Bool.and_eq_true, Bool.not_eq_true'] at hc
-            obtain ⟨_, rfl⟩ := hc
-            exact m_factorSet e red (hred rfl) pa o2 cs2
-          · exact NEq.refl _ _ _ _
-        split
-        · rename_i o3 cs3 heq3
-          rw [heq3] at h3
-          exact NEq.trans (nEq_removeEmpties e pa rtl o3 cs3) h3
-        · exact h3
-      · exact h2
-    · exact h1
+    exact (reduceAltFrom_sound e red on pa rtl hred _).trans (nEq_mkAlt_mergeLetters e ht pa rtl o (a :: b :: rest))
 
 /-! ## the alternation block of `reduceAtomic` -/
 
@@ -1605,10 +1608,12 @@ theorem reduceAll_sound (e : Env) (ht : TextOK e) (on dg : Bool) (fuel : Nat) :
     ∀ (n : RNode) (rtl pa : Bool), NEq pa e rtl (reduceAll false on dg fuel rtl pa n) n
   | .alt o cs, rtl, pa => by
     rw [reduceAll]
-    refine (reduceNode_sound e ht on rtl fuel pa _).trans (NEq.of_eq ?_)
-    intro st
-    rw [m_alt, m_alt]
-    exact (reduceAlls_sound e ht on dg fuel cs rtl).1 st
+    split
+    · refine (reduceNode_sound e ht on rtl fuel pa _).trans (NEq.of_eq ?_)
+      intro st
+      rw [m_alt, m_alt]
+      exact (reduceAlls_sound e ht on dg fuel cs rtl).1 st
+    · exact reduceAltFrom_sound e _ on pa rtl (fun h => by subst h; exact redSound_reduceNode e ht on fuel) _
   | .cat o cs, rtl, pa => by
     rw [reduceAll]
     split
